@@ -27,6 +27,8 @@ pub mod c04;
 pub mod c05;
 #[cfg(any(feature = "p06" , feature = "p19"))]
 pub mod c06;
+#[cfg(feature = "p06")]
+pub mod c06b;
 #[cfg(any(feature = "p07"))]
 pub mod c07;
 #[cfg(any(feature = "p08"))]
